@@ -72,6 +72,10 @@ def _common_ops(variants):
             # a depfile left behind by an earlier failed or killed command
             ops.append({"op": "write", "path": st.id + ".d", "content": st.id + ": " + " ".join(st.hidden) + "\n",
                         "label": "leftover depfile " + st.id + ".d"})
+    for st in v0.stmts:
+        if st.rsp:
+            # a response file kept because its command failed in an earlier build
+            ops.append({"op": "write", "path": st.rsp[0], "content": st.rsp[1], "label": "response file %s kept by a failed build" % st.rsp[0]})
     for i in range(1, len(variants)):
         ops.append({"op": "variant", "to": i, "label": "manifest:=" + variants[i].name})
     build = len(ops)
